@@ -25,6 +25,8 @@ pub const E1: &[&str] = &[
     "<&str as T<A, B>>::X", "<<A as B>::C as T<D, E>>::X", "<*const u8 as T<A, B>>::X", "<(A, B) as T<C, D>>::X", "<[u8] as T<A, B>>::X",
     "<Vec<&u8> as T<A, B>>::X", "pair::<Option<fn(u8) -> u8>, u8>()", "f::<&'static str, -1>()", "f::<{ a >= b }, B>()", "x.m::<fn() -> A, B>(c, d)",
     "<A as T<fn(B) -> C, D>>::X", "f::<A, B>::<C, D>()", "<A as T<B, C>>::f::<D, E>()",
+    // a `>` / `>>` operator followed by a global path: after `a < b,` or `a << 2,` the pair must not read as `<..>::` (h5)
+    "c > ::core::primitive::u8::MIN", "8u32 >> ::core::primitive::u32::MIN", "1u32 << 2",
 ];
 
 /// one-level contexts for E2; `@` is the hole
